@@ -85,7 +85,7 @@ def item_src(L, entry, order=0, generic=False, guise=()):
     elif "alias_ty" in guise:
         wty = "Wa"
     elif "proj_ty" in guise:
-        wty = "<%s as ::dx_support::Idt>::T" % W
+        wty = "<%s as ::dx_support::Idt>::Same" % W
     vis = "pub(crate) " if "vis" in guise else "pub "
 
     def fields(v, vi=0):
